@@ -211,8 +211,9 @@ CHECKS = {
             "library code per (operation, secret) on the default (AVX2) and noavx2 (SSE2) builds (thorough: purego too), two runs in "
             "opposite secret orders, go to the same monitor.",
             "NOT covered: the standard library and x/crypto (keccakf_amd64.s), variable-latency instructions, micro-architecture; secrets "
-            "and operations are sampled; machine-level deviations that do not reproduce in both runs are filtered. Trusts TLC/SANY, the "
-            "rewriter, valgrind.",
+            "and operations are sampled; machine-level deviations that do not reproduce in both runs of a pair, and in a confirmation pair "
+            "for the same secrets, are filtered; runtime routines the compiler substitutes for source operators (runtime.memequal for == on "
+            "arrays: seeded defect C08-j is not detected) are outside the observation. Trusts TLC/SANY, the rewriter, valgrind.",
             "TLA+ non-interference monitor checked by TLC over branch/index signatures from an AST-instrumented observation build and over "
             "instruction/data-address signatures of the compiled library traced with valgrind",
             "5/C08 and 9"),
